@@ -1,6 +1,6 @@
 (* C06 — exported theorems only: each is closed by [exact] and followed by Print Assumptions. *)
 From Coq Require Import List ZArith Bool.
-From Verif Require Import Lib.Interleave C06.Model C06.OldModel C06.Spec C06.Proofs.
+From Verif Require Import Lib.Interleave C06.Model C06.OldModel C06.Spec C06.Codec C06.Proofs.
 Import ListNotations.
 Open Scope Z_scope.
 
@@ -187,6 +187,28 @@ Theorem c06_numa_capacity_events : forall o hs,
   wf_opts o -> nres_nonneg (o_cap o) -> Forall item_sched hs -> within_capacity o (irun o hs).
 Proof. exact ihist_capacity. Qed.
 Print Assumptions c06_numa_capacity_events.
+
+(* ---- streams "ledger" / "conc": the dump clauses of the decision procedure ---- *)
+(* in every state satisfying the ledger invariant the model's dump passes clauses 21-25 (ledger
+   ascending, reference counts = recomputation from the pods, positive, NUMA ledger =
+   recomputation, free CPUs = those below the limit and not reserved) *)
+Theorem c06_dump_model_passes : forall o st es,
+  wf_opts o -> linv st -> dump_code o (l_pods st) es false (dump_lobs o st) = 0.
+Proof. exact dump_model_passes. Qed.
+Print Assumptions c06_dump_model_passes.
+
+(* ... hence after every history of scheduler calls and informer events, judged against the
+   live pods recomputed from the history *)
+Theorem c06_ledger_dump_passes : forall o hs es,
+  wf_opts o -> Forall item_wf hs ->
+  dump_code o (live_hist o l_init [] hs) es false (dump_lobs o (irun o hs)) = 0.
+Proof. exact ihist_dump_passes. Qed.
+Print Assumptions c06_ledger_dump_passes.
+
+(* the wire encoding of the dump (run_case) decodes (prop_case) to the record judged above *)
+Theorem c06_dump_wire : forall o st, dec_dump (dump o st) = (dump_lobs o st, []).
+Proof. exact dec_dump_dump. Qed.
+Print Assumptions c06_dump_wire.
 
 (* ---- NUMA split ---- *)
 Theorem c06_numa_exact : forall kind k req hav got,
